@@ -1,7 +1,8 @@
 """C08 — auto-design turns any well-formed topology into a complete line system.
 
 Correspondence: add_missing_elements_in_network + add_missing_fiber_attributes (real DiGraph, real elements) vs
-Gnpy.Chain.addMissingLine / addConn / addPadding per chain; calculate_new_length vs Gnpy.Chain.calcNewLength.
+Gnpy.Chain.addMissingLine / addConn / addPadding per chain; the edge list of the designed DiGraph vs
+Gnpy.Chain.toGraph of the completed chains; calculate_new_length vs Gnpy.Chain.calcNewLength.
 Monitor: the statement on the designed DiGraph (own graph walk, own arithmetic).
 """
 import os
@@ -20,19 +21,22 @@ N = {'quick': 420, 'thorough': 16000}
 LEAN_MODULES = ['GnpyProofs.Props.C08']
 THEOREMS = [f'Gnpy.Chain.{t}' for t in (
     'floorDiv_spec', 'calcNewLength_spec', 'calcNewLength_short', 'calcNewLength_long', 'split_preserves_length_and_loss',
-    'split_spans_equal', 'splitLine_kinds', 'no_adjacent_fibres', 'roadm_fibre_junction_amplified',
-    'original_order_preserved', 'addMissing_endpoints', 'names_unique_partial', 'connectors_defined',
+    'split_preserves_total_loss', 'split_spans_equal', 'splitLine_kinds', 'no_adjacent_fibres', 'roadm_fibre_junction_amplified',
+    'original_order_preserved', 'addMissing_endpoints', 'one_in_one_out', 'endpoints_degree', 'chain_is_path',
+    'reachability_unchanged', 'names_unique_partial', 'connectors_defined',
     'padding_reached', 'padRun_dsl', 'padRun_fused_edge_unpadded_fails_current',
     'padRun_idempotent', 'amps_complete')]
 RULE = ('cases from one PRNG: (a) 75 % star topologies (hub ROADM of degree 1-5, one chain per direction of 1-8 line '
         'elements: fibres 0.5 m - 3000 km incl. 149/149.999/150/150.001/151 km, fused runs, user amplifiers with full/'
         'partial/no settings, Raman fibres, a transceiver-sourced line) x random Span/SI configuration (mode, '
         'delta_power_range, slope, padding, EOL, connectors, max_length, VOA settings) built through network_from_json + '
-        'designed_network; (b) 15 % direct calculate_new_length calls around the bounds; (c) 10 % malformed (a chain '
-        'whose last element has no successor, an isolated fibre) that must be rejected with NetworkTopologyError. '
+        'designed_network; fibres of 100 km and more carry, in half of the cases, a user att_in and 0-3 lumped losses '
+        'anywhere strictly inside (several in one sub-span, in the last one, next to a sub-span boundary); (b) 15 % direct calculate_new_length calls around the bounds; (c) 10 % malformed (a chain '
+        'whose last element has no successor, an isolated fibre, a lumped loss exactly on a sub-span boundary) that must be rejected with NetworkTopologyError. '
         'non-trivial: design inserted an amplifier, split a fibre or padded a span / calc case with L >= max_length / '
         'every malformed case; distinct = distinct canonical JSON')
-MODEL_SCOPE = ('modelled: calculate_new_length, split_fiber, add_roadm_preamp/booster, add_inline_amplifier (Edfa only), '
+MODEL_SCOPE = ('modelled: calculate_new_length, split_fiber with _span_params (att_in on the first span, lumped losses '
+               'distributed by position), add_roadm_preamp/booster, add_inline_amplifier (Edfa only), '
                'add_connector_loss, add_fiber_padding, prev/next_node_generator, span_loss. Chains are the unit: a '
                'ROADM-ROADM connection without any line element is outside the model (its amplifier depends on the '
                'node iteration order). Not modelled: Multiband_amplifier insertion, amplifier locations/metadata, edge '
@@ -51,7 +55,7 @@ def gen(rng, tier, widen=False):
         return gen_malformed(rng, tier)
     if r < 0.25 or (widen and r < 0.5):
         return gen_calc(rng, widen)
-    c = G.gen_case(rng, tier, widen)
+    c = G.gen_case(rng, tier, widen, lumped=True)
     c['kind'] = 'design'
     return c
 
@@ -71,7 +75,7 @@ def gen_calc(rng, widen=False):
 def gen_malformed(rng, tier):
     c = G.gen_case(rng, tier, raman_rate=0.0, raman_crash_rate=0.0, trx_src_rate=0.0)
     c['kind'] = 'malformed'
-    c['what'] = rng.choice(['dangling', 'dangling', 'isolated'])
+    c['what'] = rng.choice(['dangling', 'dangling', 'isolated', 'lump-on-boundary'])
     c['which'] = rng.randrange(len(c['chains']))
     return c
 
@@ -132,6 +136,9 @@ def _load(case, topo=None):
     return eq, net
 
 
+LAST_MID = {}       # uid -> record of every fibre right after add_missing_elements_in_network (last design_impl call)
+
+
 def design_impl(case, eq, net):
     """run designed_network, recording the bounds handed to split_fiber; returns (error kind or None, bounds)"""
     import gnpy.core.network as NW
@@ -142,7 +149,18 @@ def design_impl(case, eq, net):
     def spy(network, fiber, bounds, target_length):
         seen.append((bounds.start, bounds.stop, target_length))
         return orig(network, fiber, bounds, target_length)
+    orig_attr = NW.add_missing_fiber_attributes
+    LAST_MID.clear()
+
+    def spy_attr(network, equipment):
+        # the fibres as add_missing_elements_in_network left them (before connector defaults, EOL and padding)
+        from gnpy.core import elements as E
+        for n in network.nodes():
+            if isinstance(n, E.Fiber):
+                LAST_MID[n.uid] = G.record(n)
+        return orig_attr(network, equipment)
     NW.split_fiber = spy
+    NW.add_missing_fiber_attributes = spy_attr
     try:
         designed_network(eq, net)
         err = None
@@ -150,6 +168,7 @@ def design_impl(case, eq, net):
         err = err_kind(e)
     finally:
         NW.split_fiber = orig
+        NW.add_missing_fiber_attributes = orig_attr
     return err, (seen[0] if seen else None)
 
 
@@ -189,6 +208,8 @@ def compare_chain(res, tag, model_line, post):
                            [r['length'], r['att_in'], r['con_in'], r['con_out'], G.fiber_true_loss(r)],
                            [b2f(e['length']), b2f(e['att_in']), b2f(e['con_in']), b2f(e['con_out']), b2f(e['loss'])],
                            abs_=1e-9, uid=r['uid'])
+            res.cmp_floats(f'{tag}.fiber.lumped_losses(position,loss)', [v for x in r['lumps'] for v in x],
+                           [b2f(v) for x in e['lumps'] for v in x], abs_=1e-9, uid=r['uid'])
             md = None if e['dsl'] is None else b2f(e['dsl'])
             if (md is None) != (r['dsl'] is None):
                 res.mismatch(f'{tag}.design_span_loss', r['dsl'], md, uid=r['uid'])
@@ -216,6 +237,11 @@ def run_design(case, drv):
         # the C08 model covers the completion of the line; errors of the later gain/power walk belong to C09
         if model_err is not None or err != 'TypeError':
             res.cmp_exact('designed_network.error', err, model_err)
+        if err == 'NetworkTopologyError' and model_err == 'NetworkTopologyError':
+            # a generated lumped loss fell exactly on a sub-span boundary (position 0 of the next span): rejected by the
+            # Fiber constructor, as the model predicts - not a well-formed input
+            res.stats.update({'design': 1, 'lump_on_boundary_rejected': 1})
+            return res
         # monitor: the property demands that every well-formed topology is designed
         if err is not None:
             cls = 'unlisted'
@@ -234,6 +260,21 @@ def run_design(case, drv):
             continue
         compare_chain(res, f'chain[{ch["src"]}->{ch["dst"]}]', a['line'], post[i])
 
+    # ---- the whole DiGraph against toGraph of the model's completed chains (edges over uids, exact) ---------------------------
+    kind = {'R': 'roadm', 'T': 'trx'}
+    mchains = [model_chain(case, ch, recs, lo, hi, target)['chain'] for ch, recs in zip(chains, pre)]
+    for i in range(case['k'] + 1):          # the transceiver <-> ROADM connections are chains without line elements
+        mchains.append({'src': f'T{i}', 'src_kind': 'trx', 'dst': f'R{i}', 'dst_kind': 'roadm', 'line': []})
+        mchains.append({'src': f'R{i}', 'src_kind': 'roadm', 'dst': f'T{i}', 'dst_kind': 'trx', 'line': []})
+    if case.get('trx_src'):
+        mchains.append({'src': 'R0', 'src_kind': 'roadm', 'dst': 'TX', 'dst_kind': 'trx', 'line': []})
+    sp_ = case['span']
+    g = drv.ask('c08.graph', chains=mchains, lo=f2b(lo), hi=f2b(hi), target=f2b(target), con_in=f2b(sp_['con_in']),
+                con_out=f2b(sp_['con_out']), eol=f2b(sp_['EOL']), padding=f2b(sp_['padding']))
+    res.cmp_exact('DiGraph.edges', sorted([u.uid, v.uid] for u, v in net.edges()), sorted(g['edges']))
+    res.cmp_exact('endpoint pairs', sorted(p for p in reach_before if p[1] is not None),
+                  sorted(tuple(p) for p in g['pairs']))
+
     # ---- monitor: the statement on the designed DiGraph ------------------------------------------------------------------
     st = monitor_design(res, case, eq, net, pre, post, ends, reach_before, hi)
     res.nontrivial = bool(st['inserted_amps'] or st['split_fibres'] or st['padded_spans'])
@@ -248,7 +289,7 @@ def monitor_design(res, case, eq, net, pre, post, ends, reach_before, max_length
     from gnpy.core import elements as E
     sp = case['span']
     st = {'inserted_amps': 0, 'split_fibres': 0, 'padded_spans': 0, 'amp_to_amp_spans': 0, 'user_amps': 0,
-          'fibres': 0, 'fused': 0, 'raman_spans_exempt': 0}
+          'fibres': 0, 'fused': 0, 'raman_spans_exempt': 0, 'split_with_att_in_or_lumped': 0, 'split_lumped_losses': 0}
     uids = [n.uid for n in net.nodes()]
     if len(uids) != len(set(uids)):
         dup = sorted({u for u in uids if uids.count(u) > 1})
@@ -329,6 +370,16 @@ def monitor_design(res, case, eq, net, pre, post, ends, reach_before, max_length
             glass = sum(r['loss_coef'] * r['length'] for r in parts)
             if abs(glass - o['loss_coef'] * L) > 1e-9 * max(1.0, o['loss_coef'] * L):
                 res.fail(f'split: spans of {o["uid"]} have fibre loss {glass} dB, original {o["loss_coef"] * L} dB')
+            # total loss: fibre attenuation + input attenuation + lumped losses, as add_missing_elements left the spans
+            mids = [LAST_MID.get(r['uid']) for r in parts]
+            if all(m is not None for m in mids):
+                body = sum(m['loss_coef'] * m['length'] + m['att_in'] + sum(x[1] for x in m['lumps']) for m in mids)
+                orig = o['loss_coef'] * L + o['att_in'] + sum(x[1] for x in o['lumps'])
+                if abs(body - orig) > 1e-9 * max(1.0, orig):
+                    res.fail(f'split: spans of {o["uid"]} carry {body:.6f} dB of fibre loss + att_in + lumped losses, the '
+                             f'original fibre {orig:.6f} dB (att_in {o["att_in"]}, lumped {[x[1] for x in o["lumps"]]})')
+                st['split_with_att_in_or_lumped'] += int(o['att_in'] != 0 or bool(o['lumps']))
+                st['split_lumped_losses'] += len(o['lumps'])
             if max(lens) > max_length * (1 + 1e-12):
                 res.fail(f'split: spans of {o["uid"]} ({max(lens)} m) still exceed max_length {max_length} m')
             if L < max_length and n > 1:
@@ -363,8 +414,13 @@ def run_malformed(case, drv):
     topo = G.topology_json(case)
     ch = case['chains'][case['which']]
     last = ch['line'][-1]['uid']
+    expected = 'NetworkTopologyError'
     if case['what'] == 'dangling':
         topo['connections'] = [c for c in topo['connections'] if not (c['from_node'] == last and c['to_node'] == ch['dst'])]
+    elif case['what'] == 'lump-on-boundary':
+        # a 200 km fibre becomes 2 x 100 km: a lumped loss at km 100 would sit at position 0 of the second span, which the
+        # Fiber constructor rejects
+        return run_lump_boundary(case, drv)
     else:
         topo['elements'].append(dict(nets.fiber('lonely', 40.0), metadata=nets.loc()))
     try:
@@ -381,6 +437,31 @@ def run_malformed(case, drv):
                  'NetworkTopologyError')
     res.nontrivial = True
     res.stats.update({'malformed': 1, f'malformed_{case["what"]}': 1, f'malformed_error_{err}': 1})
+    return res
+
+
+def run_lump_boundary(case, drv):
+    res = Result()
+    c = copy.deepcopy(case)
+    c['span'].update({'max_length': 150, 'padding': 10})
+    ch = {'src': 'R0', 'dst': 'R1',
+          'line': [{"uid": "lb 0", "type": "Fiber", "type_variety": "SSMF",
+                    "params": {"length": 200.0, "length_units": "km", "loss_coef": 0.2, "con_in": None, "con_out": None,
+                               "att_in": 1.0, "lumped_losses": [{"position": 100.0, "loss": 1.0}]}}]}
+    c['chains'] = [ch] + [x for x in c['chains'] if not (x['src'] == 'R0' and x['dst'] == 'R1')]
+    c['per_degree'] = {}
+    eq, net = _load(c)
+    pre_objs, _ = G.chains_of(net, c)
+    recs = [G.record(n) for n in pre_objs[0]]          # before the design: split_fiber mutates the fibre before it raises
+    err, _ = design_impl(c, eq, net)
+    lo, hi, target = G.split_bounds(c['span'])
+    a = drv.ask('c08.design', **model_chain(c, ch, recs, lo, hi, target))
+    res.cmp_exact('designed_network.error(lump on span boundary)', err, a.get('error'))
+    if err != 'NetworkTopologyError':
+        res.fail(f'malformed accepted: a lumped loss exactly on a sub-span boundary gave {err}, expected '
+                 'NetworkTopologyError')
+    res.nontrivial = True
+    res.stats.update({'malformed': 1, 'malformed_lump-on-boundary': 1, f'malformed_error_{err}': 1})
     return res
 
 
